@@ -347,3 +347,91 @@ func condOnSameLockRule(id string, specs ...[4]string) func(*Ctx) { // pkg, type
 		}
 	}
 }
+
+// ruleC11SyscallWrapperDirect: the default memcall implementation is a transparent wrapper: each of its five methods
+// calls the namesake function of github.com/awnumar/memcall on every path, with its own parameters, and returns that
+// call's results. A wrapper that sometimes answers from remembered state (e.g. "already NoAccess") skips a real
+// mprotect/mlock/munmap whenever its memory of the page state is wrong — which it is as soon as anything else (memguard's
+// own buffer teardown, the kernel reusing an address) changes the pages behind its back.
+func ruleC11SyscallWrapperDirect(c *Ctx) {
+	u := c.U1
+	c.rule("C11.syscall-wrapper-direct", "memcall.Default's Alloc/Lock/Protect/Unlock/Free each call the namesake github.com/awnumar/memcall function with their own parameters on every path to return (no remembered page state decides whether the system call is made)", 5)
+	n := u.Named(pkgMemcall, "wrapper")
+	if n == nil {
+		c.unresolved("memcall.wrapper", "type")
+		return
+	}
+	for _, m := range []string{"Alloc", "Lock", "Protect", "Unlock", "Free"} {
+		f := u.MethodOf(n, m)
+		if f == nil || f.Blocks == nil {
+			c.unresolved("memcall.wrapper."+m, "method")
+			continue
+		}
+		c.FuncsAnalysed[shortName(f)] = true
+		ok, tr := mustPass(f.Blocks[0], 0, func(i ssa.Instruction) bool {
+			cv, isCall := i.(*ssa.Call)
+			if !isCall {
+				return false
+			}
+			g := staticCallee(cv)
+			if g == nil || g.Pkg == nil || g.Pkg.Pkg.Path() != "github.com/awnumar/memcall" || g.Name() != m {
+				return false
+			}
+			// first argument is the method's own first parameter (after the receiver)
+			return len(cv.Call.Args) > 0 && len(f.Params) > 1 && resolve(cv.Call.Args[0]) == ssa.Value(f.Params[1])
+		}, nil)
+		if ok {
+			c.ok("memcall.wrapper."+m, u.pos(f.Pos()), "calls memcall."+m+" on every path")
+		} else {
+			c.bad("memcall.wrapper."+m, u.pos(f.Pos()), "the default memcall "+m+" has a path that returns without calling memcall."+m+" on its argument: a skipped "+map[string]string{"Protect": "mprotect leaves pages readable while idle (or inaccessible under a reader)", "Lock": "mlock leaves secret pages swappable", "Unlock": "munlock leaks locked pages", "Free": "munmap leaves secret pages mapped", "Alloc": "mmap hands out no/foreign pages"}[m], u.tracePositions(tr)...)
+		}
+	}
+}
+
+// ruleC11AccessorsOnFinalizerOwner: the object that carries the finalizer's target must be what every access path holds
+// on to. The accessor methods of a secret whose struct has a `dummy` finalizer anchor are therefore declared on that outer
+// type itself — not promoted from the embedded inner struct: a Reader or a bound method value created through a promoted
+// method references only the inner struct, the outer object becomes unreachable, and the finalizer closes (wipes, unmaps)
+// the secret under a live reader.
+func ruleC11AccessorsOnFinalizerOwner(c *Ctx) {
+	u := c.U1
+	c.rule("C11.accessors-on-finalizer-owner", "protectedmemory: WithBytes, WithBytesFunc and NewReader are declared directly on the type that owns the finalizer anchor (field dummy), not promoted from an embedded struct", 3)
+	p := u.ByPath[pkgProt]
+	if p == nil {
+		c.unresolved("protectedmemory", "package")
+		return
+	}
+	var owner *types.Named
+	sc := p.Types.Scope()
+	for _, nm := range sc.Names() {
+		tn, ok := sc.Lookup(nm).(*types.TypeName)
+		if !ok {
+			continue
+		}
+		nt, ok := tn.Type().(*types.Named)
+		if !ok {
+			continue
+		}
+		if st, isS := nt.Underlying().(*types.Struct); isS {
+			for k := 0; k < st.NumFields(); k++ {
+				if st.Field(k).Name() == "dummy" {
+					owner = nt
+				}
+			}
+		}
+	}
+	if owner == nil {
+		c.unresolved("protectedmemory/finalizer-owner", "no struct with a `dummy` finalizer anchor")
+		return
+	}
+	ms := types.NewMethodSet(types.NewPointer(owner))
+	for _, m := range []string{"WithBytes", "WithBytesFunc", "NewReader"} {
+		sel := ms.Lookup(p.Types, m)
+		if sel == nil {
+			c.bad("protectedmemory."+owner.Obj().Name()+"."+m, "", "the secret type has no method "+m)
+			continue
+		}
+		direct := len(sel.Index()) == 1
+		c.check(direct, "protectedmemory."+owner.Obj().Name()+"."+m, u.pos(sel.Obj().Pos()), "declared on the finalizer owner", m+" is promoted from an embedded struct: a Reader / bound method value made through it keeps only the inner struct alive, the outer object (whose dummy field anchors the finalizer) becomes garbage, and the finalizer wipes and unmaps the secret while it is still being read")
+	}
+}
